@@ -61,7 +61,7 @@ def sharing_pairs(pool):
                 if cx == 'graph' and cy == 'graph':
                     ids_x = {id(n) for n in ox.nodes.values()} | {id(e) for e in ox.edges.values()}
                     ids_y = {id(n) for n in oy.nodes.values()} | {id(e) for e in oy.edges.values()}
-                    if ids_x & ids_y:
+                    if (ids_x & ids_y) or (ox.nid_terminal is oy.nid_terminal and isinstance(ox.nid_terminal, list)):
                         out.append([names[x], names[y]])
                 continue
             ax, ay = arrays_of(cx, ox), arrays_of(cy, oy)
@@ -84,6 +84,22 @@ def poke(pool, name):
                 if k != name and digest(c, o) != before[k]:
                     changed.add(k)
             e.opics = saved
+        # the documented in-place rewrites as well: flip (twice = identity) and a rename of a terminal node (and back)
+        try:
+            obj.flip()
+            for k, (c, o) in pool.items():
+                if k != name and digest(c, o) != before[k]:
+                    changed.add(k)
+            obj.flip()
+            t0 = obj.nid_terminal[0]
+            fresh = max(list(obj.nodes) + [0]) + 17
+            obj.rename_node_id(t0, fresh)
+            for k, (c, o) in pool.items():
+                if k != name and digest(c, o) != before[k]:
+                    changed.add(k)
+            obj.rename_node_id(fresh, t0)
+        except Exception:
+            pass
         return sorted(changed)
     for a in arrays_of(cls, obj):
         if a.size == 0:
@@ -153,7 +169,10 @@ def run_history(ptn, seed, quick, want_graphs=True):
         return nid[0]
 
     def new_state(maxD=3):
-        _, qD = canon.gen_charges(rng, L, len(qd), 'mps', 'u1', qd=qd, q_start=q_lead, qtot=qtot[0], maxD=maxD, dead=bool(rng.random() < 0.2))
+        # now and then a state whose bond charges cannot be connected (the zero state with disjoint sectors: dummy bonds of the
+        # block QR / SVD)
+        sty = 'disjoint' if rng.random() < 0.08 else 'u1'
+        _, qD = canon.gen_charges(rng, L, len(qd), 'mps', sty, qd=qd, q_start=q_lead, qtot=qtot[0], maxD=maxD, dead=bool(rng.random() < 0.2))
         qtot[0] = qD[-1][0]
         fill = 'random' if rng.random() < 0.85 else float(rng.choice([1.0, 0.5, -2.0]))
         psi = ptn.MPS(qd, qD, fill=fill, rng=rng)
@@ -360,7 +379,17 @@ def run_history(ptn, seed, quick, want_graphs=True):
                 chains = [ptn.OpChain([int(rng.integers(0, 3)) for _ in range(n)], [0] * (n + 1), float(rng.integers(1, 4)), int(rng.integers(0, L - n + 1)))
                           for n in [int(rng.integers(1, L + 1)) for _ in range(int(rng.integers(1, 4)))]]
                 return ptn.OpGraph.from_opchains(chains, L, 0)
-            if graphs and rng.random() < 0.6:
+            if graphs and rng.random() < 0.15:
+                # a second graph built with the public constructor from copies of the nodes / edges of an existing one and its
+                # list of terminal ids (handed over as the same list object, as a user deriving a variant of a graph would)
+                import copy as _copy
+                g0 = int(rng.choice(graphs))
+
+                def derived():
+                    src = pool[g0][1]
+                    return add_obj('graph', ptn.OpGraph(_copy.deepcopy(list(src.nodes.values())), _copy.deepcopy(list(src.edges.values())), src.nid_terminal))
+                observe('OpGraph()', 'fresh', None, True, [g0], derived)
+            elif graphs and rng.random() < 0.6:
                 g1 = int(rng.choice(graphs))
                 if rng.random() < 0.5 and len(graphs) >= 2:
                     g2 = int(rng.choice([g for g in graphs if g != g1]))
